@@ -424,6 +424,21 @@ def c17_oracle(full, io, b):
             if (int(shown.group(1)) if shown else None) != exp_shown and v.n_of(h, "host_port_subcomponent") not in flagged:
                 out.append(fail(v, h, "host_port_subcomponent", f"host_port_subcomponent = {dec(hps)!r} but explicit_port = {e_}, scheme default {dflt}: expected port shown = {exp_shown}",
                                 "port-shown", also=[v.n_of(h, "explicit_port"), v.n_of(h, "scheme")]))
+    # "the port written": a derivation that takes no port argument neither writes nor removes one — explicit_port of the result is
+    # explicit_port of the URL it was derived from (origin() strips the userinfo only; with_scheme keeps a written port as it is)
+    flagged = {f_.get("n") for f_ in out}
+    for h, n in enumerate(v.cr):
+        f = full[n].split("\t")
+        if f[0] != "mod" or f[3] in ("with_port", "relative") or not v.alive(h):
+            continue
+        src = int(f[2])
+        if not v.alive(src):
+            continue
+        a, c = v.get(src, "explicit_port"), v.get(h, "explicit_port")
+        if a is None or c is None or a.startswith("!") or c.startswith("!") or a == c or v.n_of(h, "explicit_port") in flagged:
+            continue
+        out.append(fail(v, h, "explicit_port", f"{f[3]}() changed the written port: explicit_port {pretty_out(a)} -> {pretty_out(c)}", "explicit-port-derived",
+                        also=[v.n_of(src, "explicit_port")]))
     return out
 
 
@@ -474,6 +489,21 @@ def c17_streams(rng, tier, budget):
                 again = [st2.mod(base, "origin"), st2.mod(base, "truediv", enc("c")), st2.mod(base, "with_user", enc("n"))]
                 for i, d in enumerate(again):
                     st2.obs_all(d, rev if (i + p) % 2 == 0 else C17_OBS)
+    # NO port written: a derivation that rebuilds the authority (origin strips the userinfo, with_user / with_password / with_host
+    # re-assemble it) must not WRITE the scheme's default port into the result — visible through explicit_port / raw_authority, and
+    # after a scheme switch through port / is_default_port()
+    for sc in ("http", "https", "ws", "wss", "ftp", "x"):
+        other = {"http": "https", "https": "http", "ws": "wss", "wss": "ws", "ftp": "http", "x": "http"}[sc]
+        for hst in ("h", "[::1]", "1.2.3.4"):
+            for ui in ("", "u@", "u:pw@", ":pw@"):
+                base = st2.new(f"{sc}://{ui}{hst}/a?q#f")
+                derived = [st2.mod(base, "origin"), st2.mod(base, "with_user", "~"), st2.mod(base, "with_user", enc("n")), st2.mod(base, "with_password", "~"),
+                           st2.mod(base, "with_password", enc("w")), st2.mod(base, "with_host", enc("o.example")), st2.mod(base, "with_port", "~")]
+                derived += [st2.mod(d, "with_scheme", enc(other)) for d in derived[:3]]
+                derived.append(st2.mod(derived[0], "origin"))
+                for i, d in enumerate(derived):
+                    st2.obs_all(d, C17_OBS if i % 2 == 0 else rev)
+                    st2.obs_all(d, ["raw_authority", "val"])
     yield "derived-both-orders", st2
     yield "random", general_stream(rng, int((80 if tier == "quick" else 1500) * budget), C17_OBS, mods=["with_port", "with_scheme", "with_host", "origin"], with_join=False)
 
@@ -485,6 +515,7 @@ register(Prop("C17", c17_streams, compare=lambda op: not op.startswith("tag") an
 # ------------------------------------------------------------------ C18
 C18_TEXTS = ["", "a", "a b", "é", "日本", "\U0001f600", "a/b", "a?b", "a#b", "a@b", "a:b", "[x]", "a%b", "%41", "a+b", "a&b=c;d", "\x00", "\x7f", "a\tb", "a\nb", "\x85", "‮x", " ",
              "x​y", "a\\b", "\"<>", "ü@ß:ö", "a／b", "p℀q", "a＠b",
+             "a%2Bb", "AT%26T", "k%3Dk", "x%3By", "%25", "a%2bb", "%23x", "%2F", "100%", "%%41",
              "a/b\n", "x/\x7fy", "p/q\u200b", "a?b\x00", "a#b\n", "a@b\x85", "a:b\x00", "[x]\n", "k&v\x01", "a=b\x7f", "a+b\n", "a;b\x00", "%\n"]
 
 
@@ -505,6 +536,28 @@ def c18_streams(rng, tier, budget):
             st.obs_all(u, ["human_repr", "str", "val", "host", "raw_host"])
             r = st.hr(u)
             st.obs_all(r, ["str", "val", "host", "raw_host"])
+            st.cmp(r, u)
+    # every text in every component, ONE component at a time (so that no text × component pair depends on the random draw)
+    from urlgen import qarg as _qarg
+    for t in C18_TEXTS:
+        for comp in ("user", "password", "path", "qkey", "qval", "fragment"):
+            kw = dict(scheme="http", host="example.com")
+            if comp == "user":
+                kw["user"] = t
+            elif comp == "password":
+                kw.update(user="u", password=t)
+            elif comp == "path":
+                kw["path"] = "/" + t.replace("/", "_")
+            elif comp == "qkey":
+                kw["query"] = _qarg("P", [(t, "v")])
+            elif comp == "qval":
+                kw["query"] = _qarg("P", [("k", t)])
+            else:
+                kw["fragment"] = t
+            u = st.build(**kw)
+            st.obs_all(u, ["human_repr", "str", "val"])
+            r = st.hr(u)
+            st.obs_all(r, ["str", "val"])
             st.cmp(r, u)
     n = int((500 if tier == "quick" else 8000) * budget)
     for _ in range(n):
